@@ -152,11 +152,15 @@ def gen_programs(ctx, n, big=False, layouts=('canonical', 'random', 'multi', 'ma
             if r.random() < 0.4:
                 # a wide macro (12 slots, two-digit `$n` in the body) at the start of the main script:
                 # `ROT12 v0 … v11` means `v11 := v0 ; v10 := v1 ; v2 := v11`
-                vs = [r.choice(g.vars + ['w%d' % j for j in range(4)]) for _ in range(12)]
-                pre = sources.number([], [['assign', vs[11], ('var', vs[0])], ['assign', vs[10], ('var', vs[1])], ['assign', vs[2], ('var', vs[11])]])[1]
+                # twelve DIFFERENT variables, the two sources set to different non-zero constants first, the targets
+                # of the two-digit slots fresh (nothing else writes them)
+                vs = r.sample(list(dict.fromkeys(g.vars + ['w%d' % j for j in range(10)])), 10) + ['wa', 'wb']
+                c0, c1 = r.randint(1, 4), r.randint(5, 9)
+                pre = sources.number([], [['assign', vs[0], ('num', c0)], ['assign', vs[1], ('num', c1)],
+                                          ['assign', vs[11], ('var', vs[0])], ['assign', vs[10], ('var', vs[1])], ['assign', vs[2], ('var', vs[11])]])[1]
                 tdefs, _ = sources.canonical(defs, [], r, pv=pv_macro, loopfmt=loopfmt)
                 tmain, _ = sources.canonical([], main, r, pv=pv_macro, loopfmt=loopfmt)
-                text = tdefs + 'ROT12 ' + ' '.join(vs) + (';\n' if main else '\n') + tmain
+                text = tdefs + '%s := %d;\n%s := %d;\nROT12 %s' % (vs[0], c0, vs[1], c1, ' '.join(vs)) + (';\n' if main else '\n') + tmain
                 main = pre + main
             else:
                 text, L0 = sources.canonical(defs, main, r, pv=pv_macro, loopfmt=loopfmt)
